@@ -36,6 +36,7 @@ func init() {
 			{Name: "rounding", Run: runRounding},
 			{Name: "kinds", Run: runKinds},
 			{Name: "carriers", Run: runCarriers},
+			{Name: "edges", Run: runEdges},
 			{Name: "predicates", Run: runPredicates, Solo: true},
 			{Name: "random", Run: runRandom, Solo: true},
 			{Name: "encode", Run: runEncode},
